@@ -98,8 +98,21 @@ def scalar_to_cim(t, v):
     return pywbem.cimvalue(v, t)
 
 
+def _to_py_datetime(v):
+    """A Python datetime / timedelta for a fully specified CIM datetime."""
+    if v is None:
+        return None
+    d = CIMDateTime(v)
+    return d.timedelta if d.is_interval else d.datetime
+
+
 def value_to_cim(spec):
     t = spec['t']
+    if spec.get('py') and t == 'datetime':
+        if 'a' in spec:
+            return None if spec['a'] is None else \
+                [_to_py_datetime(x) for x in spec['a']]
+        return _to_py_datetime(spec['v'])
     if 'a' in spec:
         if spec['a'] is None:
             return None
